@@ -129,6 +129,10 @@ def bounded(sess: Session):
                      f'lowest_common_hypernyms / taxonomy_depth on graphs without a cycle of length >= 2', cases,
                      'small-scope enumeration on the real functions', not fails)
     report_graph_failures(sess, fails, PROP)
+    cases, fails = G.targeted('taxonomy')
+    sess.add_bounded('wn.taxonomy.* (several lowest common hypernyms, unsorted hypernym lists)', f'{cases} hand-picked '
+                     'graphs x all ordered pairs x simulate_root', cases, 'native execution', not fails)
+    report_graph_failures(sess, fails, PROP)
     if sess.tier == 'thorough':
         for kind in ('paths', 'taxonomy'):
             for nn in (5, 6, 7):
@@ -175,6 +179,49 @@ def placeholder_walks(sess: Session):
             for h in s.closure('hypernym', 'instance_hypernym'):
                 if h.id == '*INFERRED*':
                     placeholders[key(h)] = h
+        # walks that START at stored synsets and run through several different inferred synsets: exact
+        stored_bad = []
+        for spec in ('u:1', 'w:1'):
+            wx = wn.Wordnet(spec, expand='t:1')
+            sss = wx.synsets()
+            anc = {}
+            for s in sss:
+                cases += 1
+                want = sorted([key(x) for x in c] for c in chains(s, {key(s)}) if c)
+                got = sorted([key(x) for x in c] for c in T.hypernym_paths(s))
+                if got != want:
+                    stored_bad.append({'wordnet': spec, 'start': key(s), 'hypernym_paths': got, 'chains': want})
+                dist = {key(s): 0}
+                for c in chains(s, {key(s)}):
+                    for d, x in enumerate(c, 1):
+                        dist[key(x)] = min(dist.get(key(x), d), d)
+                anc[key(s)] = dist
+            for a in sss:
+                for b in sss:
+                    cases += 1
+                    common = set(anc[key(a)]) & set(anc[key(b)])
+                    try:
+                        got_c = sorted(key(x) for x in T.common_hypernyms(a, b))
+                    except wn.Error as exc:
+                        got_c = f'wn.Error: {exc}'
+                    if got_c != sorted(common):
+                        stored_bad.append({'wordnet': spec, 'pair': (key(a), key(b)), 'common_hypernyms': got_c,
+                                           'expected': sorted(common)})
+                    if common:
+                        want_len = min(anc[key(a)][c] + anc[key(b)][c] for c in common)
+                        try:
+                            got_len = len(T.shortest_path(a, b))
+                        except wn.Error as exc:
+                            got_len = f'wn.Error: {exc}'
+                        if got_len != want_len:
+                            stored_bad.append({'wordnet': spec, 'pair': (key(a), key(b)), 'shortest_path length': got_len,
+                                               'expected': want_len})
+        if stored_bad:
+            sess.violation_direct('wn.taxonomy:through-inferred-synsets', 'hypernym_paths / common_hypernyms / '
+                                  'shortest_path of stored synsets whose ancestors are inferred differ from the '
+                                  'definitions', {'witness': stored_bad[0], 'cases': len(stored_bad)}, True,
+                                  functions=('wn.taxonomy.hypernym_paths', 'wn.taxonomy._shortest_hyp_paths',
+                                             'wn._core._Relatable.relation_paths'))
         for k, p in sorted(placeholders.items()):
             cases += 1
             want = sorted([key(x) for x in c] for c in chains(p, {key(p)}) if c)
